@@ -1912,14 +1912,25 @@ void XMLReader::refreshRawBuffer()
         fRawByteBuf[index] = fRawByteBuf[fRawBufIndex + index];
 
     //
-    //  And then read into the buffer past the existing bytes. Add back in
-    //  that many to the bytes read, and subtract that many from the bytes
-    //  requested.
+    //  And then read into the buffer past the existing bytes. A stream may
+    //  return fewer bytes than asked for without being at its end (it returns
+    //  zero only at the end), so keep reading until the buffer is full or the
+    //  stream is exhausted. Encoding auto-sensing, BOM removal and the decoding
+    //  of the XMLDecl line look at this buffer only, and the amount decoded per
+    //  transcoding call depends on it, so the result of a parse must not depend
+    //  on how the stream happens to split its data into reads.
     //
-    fRawBytesAvail = fStream->readBytes
-    (
-        &fRawByteBuf[bytesLeft], kRawBufSize - bytesLeft
-    ) + bytesLeft;
+    fRawBytesAvail = bytesLeft;
+    while (fRawBytesAvail < kRawBufSize)
+    {
+        const XMLSize_t bytesRead = fStream->readBytes
+        (
+            &fRawByteBuf[fRawBytesAvail], kRawBufSize - fRawBytesAvail
+        );
+        if (!bytesRead)
+            break;
+        fRawBytesAvail += bytesRead;
+    }
 
     //
     //  We need to reset the buffer index back to the start in all cases,
